@@ -80,7 +80,8 @@ def mesh(cname, N):
         ob('full-mesh-count', len(kfull) == int(np.prod(N)))
         ob('points-in-BZ', all(crys.inBZ(k) for k in kfull) and all(crys.inBZ(k) for k in ksym))
         # independent BZ test: no reciprocal lattice point is closer to k than the origin (to 1e-5)
-        Gs = [np.dot(crys.reciplatt, np.array(n)) for n in itertools.product(range(-2, 3), repeat=crys.dim) if any(n)]
+        nb = 2 if cname not in ('skew16', 'skew34', 'mono-unreduced', 'sheared3') else 6
+        Gs = [np.dot(crys.reciplatt, np.array(n)) for n in itertools.product(range(-nb, nb + 1), repeat=crys.dim) if any(n)]
         ob('points-in-BZ-independent', all(np.dot(k, k) <= np.dot(k - G, k - G) + 1e-5 for k in ksym for G in Gs))
         Ffull = np.array([[sum(np.cos(np.dot(k, Rv)) for Rv in orb) for orb in sh] for k in kfull])
         Fsym = np.array([[sum(np.cos(np.dot(k, Rv)) for Rv in orb) for orb in sh] for k in ksym])
@@ -121,9 +122,15 @@ class _ZoneStub(object):
         return crystal.Crystal.inBZ(self, vec, BZG, threshold)
 
 
-def voronoi_vectors(reciplatt, dim, nmax=4):
+def voronoi_vectors(reciplatt, dim, nmax=None):
     """independent oracle: halves of the reciprocal lattice vectors G whose midpoint G/2 is strictly nearer to the origin than to
-    every other reciprocal lattice point (the Voronoi-relevant vectors; unit scale, concrete)"""
+    every other reciprocal lattice point (the Voronoi-relevant vectors; unit scale, concrete).  Search box: a Voronoi-relevant
+    vector is at most twice the covering radius long, the covering radius is at most half the sum of the basis vector lengths,
+    and |n_i| <= |G| |row_i(B^-1)|: all candidates have |n_i| <= sum_j |b_j| * |row_i(B^-1)| (+1 for the comparison partners)."""
+    if nmax is None:
+        tot = sum(np.sqrt(np.dot(reciplatt[:, j], reciplatt[:, j])) for j in range(dim))
+        inv = np.linalg.inv(reciplatt)
+        nmax = int(max(np.floor(tot * np.sqrt(np.dot(inv[i], inv[i])) + 1e-9) for i in range(dim))) + 1
     Gs = [np.dot(reciplatt, np.array(n)) for n in itertools.product(range(-nmax, nmax + 1), repeat=dim) if any(n)]
     out = []
     for G in Gs:
@@ -204,15 +211,15 @@ def _meshprobe():
 
 TERM_Q = [('rhomb50', (6, 6, 6)), ('rhomb', (6, 6, 6)), ('hcp', (6, 6, 6)), ('fcc', (8, 8, 8)), ('tria', (6, 6)), ('bct', (4, 4, 4))]
 TERM_T = TERM_Q + [('rhomb50', (4, 4, 4)), ('rhomb50', (8, 8, 8)), ('sheared3', (8, 8, 8)), ('tricl', (6, 6, 6)), ('oblique', (8, 8)), ('hex1', (6, 6, 6))]
-ZONE_Q = ['square', 'tria', 'rect1', 'oblique', 'sc', 'fcc']
-ZONE_T = ZONE_Q + ['hcp', 'bcc', 'bct', 'tricl', 'rhomb', 'hex1', 'ortho1']
+ZONE_Q = ['square', 'tria', 'rect1', 'oblique', 'skew16', 'skew34', 'sc', 'fcc']
+ZONE_T = ZONE_Q + ['mono-unreduced', 'hcp', 'bcc', 'bct', 'tricl', 'rhomb', 'hex1', 'ortho1']
 ZONE_RANGES = [(0.125, 1.0), (1.0, 2.5), (2.5, 4.5), (4.5, 12.0), (12.0, 64.0)]
 SEQ3 = [(4, 4, 6), (6, 4, 4), (4, 6, 4), (3, 4, 8)]
 SEQ2 = [(4, 6), (6, 4), (3, 8)]
 MESH3 = [(4, 4, 4), (5, 5, 5), (4, 6, 3), (3, 3, 3)]
 MESH2 = [(6, 6), (5, 4), (3, 3)]
 SCALE = {'fcc-a4': 4.0, 'hcp-a3': 3.0, 'sc-a5': 5.0, 'tria-a4': 4.0, 'bct-a10': 10.0}
-QUICK = ['sc', 'fcc', 'hcp', 'bcc', 'square', 'tria', 'rect1', 'honeycomb', 'bct', 'tricl', 'rhomb', 'oblique', 'fcc-a4', 'hcp-a3', 'tria-a4', 'sheared3']
+QUICK = ['sc', 'fcc', 'hcp', 'bcc', 'square', 'tria', 'rect1', 'honeycomb', 'bct', 'tricl', 'rhomb', 'oblique', 'fcc-a4', 'hcp-a3', 'tria-a4', 'sheared3', 'skew16', 'skew34', 'mono-unreduced']
 THOROUGH = QUICK + ['sc-a5', 'bct-a10', 'hex1', 'rumpled', 'diamond', 'l12', 'ortho1', 'rect2', 'wurtzite', 'afm-bcc']
 
 
